@@ -1,5 +1,289 @@
 package main
 
-func runSelftest(repo, verif, prop, mutant string, verbose bool) int { return 0 }
+import (
+	"bytes"
+	"encoding/json"
+	"fmt"
+	"os"
+	"os/exec"
+	"path/filepath"
+	"regexp"
+	"sort"
+	"strings"
+	"sync"
+)
 
-func thoroughExtras(r *Run, pd *propDef, repo, verif string) {}
+// Mutant: a single behaviour-breaking edit that still compiles; the owning rule must report a
+// NEW violated obligation whose key contains Expect.
+type Mutant struct {
+	ID       string `json:"id"`
+	Property string `json:"property"`
+	File     string `json:"file"`
+	Find     string `json:"find"`
+	Replace  string `json:"replace"`
+	Expect   string `json:"expect"`
+	Note     string `json:"note"`
+	Extra    []struct {
+		Find    string `json:"find"`
+		Replace string `json:"replace"`
+	} `json:"extra,omitempty"`
+}
+
+type mutantResult struct {
+	M      Mutant
+	Status string // fired | MISSED | not-applicable | build-error | fired-elsewhere
+	New    []string
+	Detail string
+}
+
+var violatedLine = regexp.MustCompile(`(?m)^\s+violated (\S+)`)
+
+func loadMutants(verif string) ([]Mutant, error) {
+	b, err := os.ReadFile(filepath.Join(verif, "mutants.json"))
+	if err != nil {
+		return nil, err
+	}
+	var ms []Mutant
+	if err := json.Unmarshal(b, &ms); err != nil {
+		return nil, err
+	}
+	return ms, nil
+}
+
+func violatedKeys(self, repo, verif, prop string) ([]string, string, error) {
+	cmd := exec.Command(self, "-property", prop, "-repo", repo, "-verif", verif)
+	cmd.Env = append(os.Environ(), "GOFLAGS=-mod=mod", "GOPROXY=off", "GOSUMDB=off", "GOTOOLCHAIN=local", "GOWORK=off")
+	var out bytes.Buffer
+	cmd.Stdout, cmd.Stderr = &out, &out
+	err := cmd.Run()
+	s := out.String()
+	if strings.Contains(s, "ANALYSER-FAILURE") {
+		return nil, s, fmt.Errorf("analyser failure")
+	}
+	_ = err
+	var keys []string
+	for _, m := range violatedLine.FindAllStringSubmatch(s, -1) {
+		keys = append(keys, m[1])
+	}
+	sort.Strings(keys)
+	return keys, s, nil
+}
+
+// runMutants applies each mutant to its own scratch copy of repo (removed afterwards) and reports.
+func runMutants(repo, verif string, ms []Mutant, parallel int) []mutantResult {
+	self, _ := os.Executable()
+	base := fmt.Sprintf("/tmp/haqq-mut.%d", os.Getpid())
+	os.MkdirAll(base, 0o755)
+	defer os.RemoveAll(base)
+	// temp verif dir: known findings only (evidence of the selftest runs must not overwrite real evidence)
+	tv := filepath.Join(base, "verif")
+	os.MkdirAll(filepath.Join(tv, "evidence"), 0o755)
+	if b, err := os.ReadFile(filepath.Join(verif, "known_findings.json")); err == nil {
+		os.WriteFile(filepath.Join(tv, "known_findings.json"), b, 0o644)
+	}
+	// baseline per property on the unmodified tree
+	baseKeys := map[string]map[string]bool{}
+	props := map[string]bool{}
+	for _, m := range ms {
+		props[m.Property] = true
+	}
+	for p := range props {
+		keys, out, err := violatedKeys(self, repo, tv, p)
+		if err != nil {
+			fmt.Println("selftest: baseline run failed for", p, "\n", out)
+		}
+		baseKeys[p] = map[string]bool{}
+		for _, k := range keys {
+			baseKeys[p][k] = true
+		}
+	}
+	results := make([]mutantResult, len(ms))
+	sem := make(chan struct{}, parallel)
+	var wg sync.WaitGroup
+	for i, m := range ms {
+		wg.Add(1)
+		go func(i int, m Mutant) {
+			defer wg.Done()
+			sem <- struct{}{}
+			defer func() { <-sem }()
+			res := mutantResult{M: m}
+			defer func() { results[i] = res }()
+			src := filepath.Join(repo, m.File)
+			b, err := os.ReadFile(src)
+			if err != nil {
+				res.Status, res.Detail = "not-applicable", "file missing"
+				return
+			}
+			if strings.Count(string(b), m.Find) != 1 {
+				res.Status, res.Detail = "not-applicable", fmt.Sprintf("anchor text occurs %d times", strings.Count(string(b), m.Find))
+				return
+			}
+			dir := filepath.Join(base, m.ID)
+			if out, err := exec.Command("rsync", "-a", "--exclude", ".git", repo+"/", dir+"/").CombinedOutput(); err != nil {
+				res.Status, res.Detail = "build-error", "rsync: "+string(out)
+				return
+			}
+			defer os.RemoveAll(dir)
+			nb := strings.Replace(string(b), m.Find, m.Replace, 1)
+			for _, x := range m.Extra {
+				if strings.Count(nb, x.Find) < 1 {
+					res.Status, res.Detail = "not-applicable", "extra anchor missing"
+					return
+				}
+				nb = strings.Replace(nb, x.Find, x.Replace, 1)
+			}
+			if err := os.WriteFile(filepath.Join(dir, m.File), []byte(nb), 0o644); err != nil {
+				res.Status, res.Detail = "build-error", err.Error()
+				return
+			}
+			tvm := filepath.Join(base, "verif-"+m.ID)
+			os.MkdirAll(filepath.Join(tvm, "evidence"), 0o755)
+			if kb, err := os.ReadFile(filepath.Join(verif, "known_findings.json")); err == nil {
+				os.WriteFile(filepath.Join(tvm, "known_findings.json"), kb, 0o644)
+			}
+			defer os.RemoveAll(tvm)
+			keys, out, err := violatedKeys(self, dir, tvm, m.Property)
+			if err != nil {
+				res.Status = "build-error"
+				if i := strings.Index(out, "ANALYSER-FAILURE"); i >= 0 {
+					res.Detail = firstLines(out[i:], 6)
+				}
+				return
+			}
+			for _, k := range keys {
+				if !baseKeys[m.Property][k] {
+					res.New = append(res.New, k)
+				}
+			}
+			switch {
+			case len(res.New) == 0:
+				res.Status = "MISSED"
+			case m.Expect == "":
+				res.Status = "fired"
+			default:
+				res.Status = "fired-elsewhere"
+				for _, k := range res.New {
+					if strings.Contains(k, m.Expect) {
+						res.Status = "fired"
+					}
+				}
+			}
+		}(i, m)
+	}
+	wg.Wait()
+	return results
+}
+
+func firstLines(s string, n int) string {
+	l := strings.Split(s, "\n")
+	if len(l) > n {
+		l = l[:n]
+	}
+	return strings.Join(l, " | ")
+}
+
+func runSelftest(repo, verif, prop, mutant string, verbose bool) int {
+	ms, err := loadMutants(verif)
+	if err != nil {
+		fmt.Println("selftest: cannot load mutants.json:", err)
+		return 2
+	}
+	var sel []Mutant
+	for _, m := range ms {
+		if prop != "" && prop != "all" && m.Property != prop {
+			continue
+		}
+		if mutant != "" && m.ID != mutant {
+			continue
+		}
+		sel = append(sel, m)
+	}
+	res := runMutants(repo, verif, sel, 6)
+	bad := 0
+	counts := map[string]int{}
+	for _, r := range res {
+		counts[r.Status]++
+		if r.Status == "MISSED" || r.Status == "build-error" || r.Status == "fired-elsewhere" {
+			bad++
+		}
+		if verbose {
+			fmt.Printf("%-16s %-4s %-34s %s %s\n", r.Status, r.M.Property, r.M.ID, strings.Join(r.New, ","), r.Detail)
+		}
+	}
+	fmt.Printf("selftest: %d mutants: %v\n", len(res), counts)
+	if bad > 0 {
+		return 1
+	}
+	return 0
+}
+
+// thoroughExtras: the thorough tier additionally (1) re-checks the property on the tree as built for
+// other configurations (GOARCH=arm64; -tags netgo,ledger) and (2) runs the mutant self-test of the property.
+func thoroughExtras(r *Run, pd *propDef, repo, verif string) {
+	// (1) other build configurations: the set of violated obligations must be the same
+	self, _ := os.Executable()
+	baseViol := map[string]bool{}
+	for _, o := range r.Obls {
+		if o.Status == "violated" {
+			baseViol[o.Key] = true
+		}
+	}
+	if os.Getenv("HAQQCHECK_NESTED") == "" {
+		for _, cfg := range []struct{ name, goarch, tags string }{{"GOARCH=arm64", "arm64", ""}, {"tags=netgo,ledger", "", "netgo,ledger"}} {
+			tv, _ := os.MkdirTemp("", "haqqcheck-cfg")
+			os.MkdirAll(filepath.Join(tv, "evidence"), 0o755)
+			if kb, err := os.ReadFile(filepath.Join(verif, "known_findings.json")); err == nil {
+				os.WriteFile(filepath.Join(tv, "known_findings.json"), kb, 0o644)
+			}
+			cmd := exec.Command(self, "-property", pd.ID, "-repo", repo, "-verif", tv)
+			cmd.Env = append(os.Environ(), "HAQQCHECK_NESTED=1", "HAQQCHECK_TAGS="+cfg.tags)
+			if cfg.goarch != "" {
+				cmd.Env = append(cmd.Env, "GOARCH="+cfg.goarch, "CGO_ENABLED=0")
+			}
+			var out bytes.Buffer
+			cmd.Stdout, cmd.Stderr = &out, &out
+			cmd.Run()
+			os.RemoveAll(tv)
+			s := out.String()
+			if strings.Contains(s, "ANALYSER-FAILURE") {
+				r.Note("thorough: configuration %s could not be analysed: %s", cfg.name, firstLines(s[strings.Index(s, "ANALYSER-FAILURE"):], 3))
+				continue
+			}
+			n := 0
+			for _, m := range violatedLine.FindAllStringSubmatch(s, -1) {
+				n++
+				// known findings print as KNOWN-FINDING, not as violated; anything violated here that is not violated in the default build is reported
+				if !baseViol[m[1]] {
+					r.Bad("CFG", cfg.name+"/"+strings.TrimPrefix(m[1], pd.ID+"."), "", "obligation violated only under build configuration "+cfg.name)
+				}
+			}
+			r.Count("thorough: obligations re-evaluated under "+cfg.name, 1)
+			r.Note("thorough: %s re-analysed, %d violated obligations (same as default build unless listed)", cfg.name, n)
+		}
+		// (2) mutants of this property
+		if ms, err := loadMutants(verif); err == nil {
+			var sel []Mutant
+			for _, m := range ms {
+				if m.Property == pd.ID {
+					sel = append(sel, m)
+				}
+			}
+			if len(sel) > 0 {
+				res := runMutants(repo, verif, sel, 6)
+				fired, na := 0, 0
+				for _, x := range res {
+					switch x.Status {
+					case "fired":
+						fired++
+					case "not-applicable":
+						na++
+					default:
+						r.Selftest = append(r.Selftest, fmt.Sprintf("SELFTEST-MISS %s: %s %s", x.M.ID, x.Status, x.Detail))
+					}
+				}
+				r.Selftest = append(r.Selftest, fmt.Sprintf("mutants of %s: fired %d of %d (%d not applicable)", pd.ID, fired, len(sel), na))
+				r.Count("thorough: seeded mutants evaluated", len(sel))
+			}
+		}
+	}
+}
